@@ -15,10 +15,10 @@ func init() {
 		DesignRef: "DESIGN.md §5 C24",
 		Level: "Decides that a chunk record is handed out only after its CRC32 was verified over exactly the encoding byte and data, that a series entry is decoded only from a buffer whose CRC32 over the whole entry was compared (NewDecbufUvarintAt) and whose error was tested at each of its read sites before the decoder consumes it, " +
 			"that every token sequence AddSeries can write into a series entry is one Decoder.Series reads, that the chunks of a series are written (and get their references) before its index entry, and that the reader's in-memory sample of the postings offset table refreshes its 'last value seen' state on every entry so the last value of every label name is kept.",
-		Note:     "Trusted: go/packages, go/types, go/cfg; engine checker/eng/codec.go; rule tables in checker/c24.go.",
-		Covers:   "chunks.Reader.ChunkOrIterable, chunks.Writer.writeChunks (CRC over what is written), encoding.NewDecbufUvarintAt, index.Reader.Series/LabelNamesFor, index.Writer.AddSeries vs index.Decoder.Series, index.newReader postings-offset sampling.",
-		NotCover: "that CRC32 detects a given alteration; symbol table and postings list contents; equality of what is read with what was written.",
-		Run:      runC24,
+		Note:           "Trusted: go/packages, go/types, go/cfg; engine checker/eng/codec.go; rule tables in checker/c24.go.",
+		Covers:         "chunks.Reader.ChunkOrIterable, chunks.Writer.writeChunks (CRC over what is written), encoding.NewDecbufUvarintAt, index.Reader.Series/LabelNamesFor, index.Writer.AddSeries vs index.Decoder.Series, index.newReader postings-offset sampling.",
+		NotCover:       "that CRC32 detects a given alteration; symbol table and postings list contents; equality of what is read with what was written.",
+		Run:            runC24,
 		MinObligations: 18,
 	})
 }
@@ -36,7 +36,9 @@ func runC24(c *eng.Ctx) {
 			return len(a) == 2 && a[0] == "sgmBytes.Range(chkEncStart, chkDataEnd)" && a[1] == "sum"
 		})
 		d := c.Fn("tsdb/encoding:NewDecbufUvarintAt")
-		retDec := eng.Return("dec", func(g *eng.Graph, rs *ast.ReturnStmt) bool { return len(rs.Results) == 1 && eng.ExprString(rs.Results[0]) == "dec" })
+		retDec := eng.Return("dec", func(g *eng.Graph, rs *ast.ReturnStmt) bool {
+			return len(rs.Results) == 1 && eng.ExprString(rs.Results[0]) == "dec"
+		})
 		d.Dom("R1", eng.CondTest("dec.Crc32(castagnoliTable) != "), retDec)
 		crcCond := ""
 		for _, e := range d.CondExprs() {
